@@ -197,10 +197,15 @@ impl<'a> Parser<'a> {
     }
     /// byte offset just after the last consumed token
     pub fn end_offset(&self) -> usize {
-        if self.pos == 0 {
+        // look-ahead (`peek`) may have stepped over blanks that were not consumed by the expression
+        let mut p = self.pos;
+        while p > 0 && matches!(self.toks[p - 1].tk, Tk::Ws | Tk::Comment) {
+            p -= 1;
+        }
+        if p == 0 {
             0
         } else {
-            self.toks[self.pos - 1].end
+            self.toks[p - 1].end
         }
     }
 
